@@ -610,6 +610,7 @@ IB = "observers/inotify_buffer.py"
 IN = "observers/inotify.py"
 PO = "observers/polling.py"
 VARIANTS = [
+    dict(name="B arrival installation gives up at the first unwatchable sub-directory (pre-fix F13)", expect="fire", rule="C07/vanishing-entry-costs-only-itself", edits=[("observers/inotify_c.py", '                    try:\n                        self._add_watch(full_path, mask)\n                    except OSError as e:\n                        # One sub-directory that cannot be watched (it may just have vanished) must not leave\n                        # the others unwatched: the first failure is reported once all of them have been tried.\n                        failure = failure or e\n', "                    self._add_watch(full_path, mask)\n")]),
     dict(name="B IGNORED clean-up unguarded lookup", expect="fire", rule="C07/thread-body-exception-flow", edits=[(IC, "if self._wd_for_path.get(path) == wd:", "if self._wd_for_path[path] == wd:")]),
     dict(name="B _recursive_simulate unguarded parent lookup", expect="fire", rule="C07/thread-body-exception-flow", edits=[(IC, "                    wd_parent_dir = self._wd_for_path.get(os.path.dirname(full_path))\n                    if wd_parent_dir is None:\n                        # The parent vanished before it could be watched (its failure was suppressed above).\n                        continue\n", "                    wd_parent_dir = self._wd_for_path[os.path.dirname(full_path)]\n")]),
     dict(name="B drop suppress(OSError) in _recursive_simulate", expect="fire", rule="C07/thread-body-exception-flow", edits=[(IC, "                    with contextlib.suppress(OSError):\n                        full_path = os.path.join(root, dirname)\n                        wd_dir = self._add_watch(full_path, self._event_mask)\n                        e = InotifyEvent(\n                            wd_dir,\n                            InotifyConstants.IN_CREATE | InotifyConstants.IN_ISDIR,\n                            0,\n                            dirname,\n                            full_path,\n                        )\n                        events.append(e)", "                    if True:\n                        full_path = os.path.join(root, dirname)\n                        wd_dir = self._add_watch(full_path, self._event_mask)\n                        e = InotifyEvent(\n                            wd_dir,\n                            InotifyConstants.IN_CREATE | InotifyConstants.IN_ISDIR,\n                            0,\n                            dirname,\n                            full_path,\n                        )\n                        events.append(e)")]),
